@@ -5,6 +5,7 @@
   tools/seeded.py confirm <name>      scratch worktree: demo passes without, fails with the
                                       patch; 875 baseline tests still pass with it
   tools/seeded.py run <name> [tier]   git apply to /repo, run the property's check(s), revert
+  tools/seeded.py run-at <name> <rev> [tier]   same against a scratch worktree of /repo at <rev>
 """
 import json
 import os
@@ -147,6 +148,55 @@ def cmd_run(name, tier='quick'):
   save(name, m)
 
 
+def cmd_run_at(name, rev, tier='quick'):
+  """Like run, but against a scratch worktree of /repo at <rev> (for changes
+  written for a tree that a later fix: commit has since altered)."""
+  m = load(name)
+  d = os.path.join(HERE, 'seeded', name)
+  tmp = tempfile.mkdtemp(prefix='seeded-at-', dir='/tmp')
+  wt = os.path.join(tmp, 'wt')
+  out = {}
+  try:
+    r = sh(['git', '-C', REPO, 'worktree', 'add', '-q', '--detach', wt, rev])
+    assert r.returncode == 0, r.stderr
+    base = {}
+    for label in ('without', 'with'):
+      if label == 'with':
+        a = sh(['git', '-C', wt, 'apply', os.path.join(d, 'patch.diff')])
+        assert a.returncode == 0, a.stderr
+      env = dict(os.environ, VERIF_REPO=wt,
+                 VERIF_EVIDENCE_DIR=os.path.join(tmp, 'ev'),
+                 VERIF_REPLAY_DIR=os.path.join(tmp, 'rp'))
+      for pid in m['property']:
+        r = sh([PY, '-m', 'mlverif', pid, '--tier', tier], cwd=HERE, env=env,
+               timeout=4 * 3600)
+        viol = [ln for ln in r.stdout.splitlines()
+                if ln.startswith('VIOLATION')]
+        mons = sorted(set(x for ln in viol
+                          for x in ln.split('monitors=')[-1].split(',')))
+        res = {'tier': tier, 'exit': r.returncode,
+               'violating_cases': len(viol), 'monitors': mons[:10]}
+        if label == 'without':
+          base[pid] = res
+        else:
+          # monitors that fire only with the patch
+          res['monitors_only_with_patch'] = sorted(
+              set(mons) - set(base[pid]['monitors']))[:10]
+          res['without_patch_at_rev'] = base[pid]
+          out[pid] = res
+        print(label, pid, res)
+  finally:
+    sh(['git', '-C', REPO, 'worktree', 'remove', '--force', wt])
+    shutil.rmtree(tmp, ignore_errors=True)
+  m['runs'].append({'verif_commit': sh(['git', '-C', HERE, 'rev-parse',
+                                        '--short', 'HEAD']).stdout.strip(),
+                    'repo_rev': rev, 'results': out,
+                    'caught': any(v['exit'] == 1 and
+                                  v['monitors_only_with_patch']
+                                  for v in out.values())})
+  save(name, m)
+
+
 def cmd_table():
   rows = []
   base = os.path.join(HERE, 'seeded')
@@ -189,5 +239,5 @@ def cmd_table():
 if __name__ == '__main__':
   c = sys.argv[1]
   {'import': cmd_import, 'confirm': cmd_confirm, 'run': cmd_run,
-   'table': cmd_table}[c](
+   'run-at': cmd_run_at, 'table': cmd_table}[c](
       *sys.argv[2:])
